@@ -70,6 +70,11 @@ class Plan:
                 self.targets.append(c)
                 got.append(c)
         self.imported = getattr(self, "imported", []) + [other]
+        if got:  # the imported contracts rest on their own plan's assumptions: report them here too
+            for a in other.assumptions:
+                tagged = f"[{other.prop}] {a}"
+                if tagged not in self.assumptions:
+                    self.assumptions.append(tagged)
         return got
 
     def callee(self, c):
